@@ -416,6 +416,67 @@ def r_planecross(idx, rep, rule="R-PLANECROSS"):
               "prism of the remaining half-planes)" % (bad[0][1] if bad else "", bad[0][0] if bad else ""), "16 truth assignments")
 
 
+def r_planecross_caller(idx, rep, rule="R-PLANECROSS"):
+    """intersect_tetrahedron_pair builds a polygon only after BOTH tetrahedra were tested against the contact plane: before the call of
+    compute_contact_polygon there is an exit guarded by check_tetrahedra_intersect_contact_plane(tetrahedron1, tetrahedron2, normal, d, ..),
+    or by an inlined test whose min / max reductions each range over ONE tetrahedron.  A reduction over the stacked vertices of both tests
+    the union: a tetrahedron that lies wholly on one side then contributes an unbounded prism of half-planes."""
+    f = idx.func(HY + "_tetrahedron_intersection::intersect_tetrahedron_pair")
+    ps = f.params()
+    t1, t2 = ps[0], ps[3]
+    body = f.node.body
+    pos = None
+    for i, st in enumerate(body):
+        if any(isinstance(c, ast.Call) and (call_name(c) or "").split(".")[-1] == "compute_contact_polygon" for c in ast.walk(st)):
+            pos = i
+            break
+    if pos is None:
+        raise AnalysisError("intersect_tetrahedron_pair: call of compute_contact_polygon not found")
+    loc = {}
+    for st in body[:pos]:
+        if isinstance(st, ast.Assign) and len(st.targets) == 1 and isinstance(st.targets[0], ast.Name):
+            loc[st.targets[0].id] = st.value
+
+    def res(e, depth=0):
+        """names of the tetrahedra an expression is computed from"""
+        out = set()
+        for n in ast.walk(e):
+            if isinstance(n, ast.Name):
+                if n.id in (t1, t2):
+                    out.add(n.id)
+                elif n.id in loc and depth < 5:
+                    out |= res(loc[n.id], depth + 1)
+        return out
+    key = f.key + "|both tetrahedra are tested against the contact plane before a polygon is built"
+    guards = [st for st in body[:pos] if isinstance(st, ast.If) and any(isinstance(x, ast.Return) for x in ast.walk(st))]
+    for g in guards:
+        for c in ast.walk(g.test):
+            if isinstance(c, ast.Call) and (call_name(c) or "").split(".")[-1] == "check_tetrahedra_intersect_contact_plane":
+                args = [u(a) for a in c.args[:2]]
+                rep.check(args == [t1, t2] or args == [t2, t1], rule, key, "%s:%d" % (f.module.relpath, g.lineno),
+                          "the plane test is called with %s instead of the two tetrahedra (%s, %s)" % (args, t1, t2), "helper called with both tetrahedra")
+                return
+    reds = []
+    for g in guards:
+        for c in ast.walk(g.test):
+            if isinstance(c, ast.Call) and (call_name(c) or "").split(".")[-1] in ("min", "max", "amin", "amax", "any", "all") and c.args:
+                reds.append((g, c, res(c.args[0])))
+    union = [(g, c) for g, c, r in reds if r == {t1, t2}]
+    if union:
+        g, c = union[0]
+        rep.bad(rule, key, "%s:%d" % (f.module.relpath, g.lineno),
+                "`%s` reduces over the vertices of BOTH tetrahedra at once: the exit only asks whether their union reaches through the contact plane. A tetrahedron that lies "
+                "wholly on one side passes, its face parallel to the plane is dropped by make_halfplanes, and a polygon outside that tetrahedron is reported; "
+                "each tetrahedron must have a vertex beyond -tolerance and one beyond +tolerance" % u(c)[:60])
+        return
+    per = {(call_name(c).split(".")[-1][-3:], tuple(sorted(r))) for g, c, r in reds if len(r) == 1}
+    if {("min", (t1,)), ("max", (t1,)), ("min", (t2,)), ("max", (t2,))} <= per:
+        rep.unknown(rule, key, f.where, "inlined plane test with one min / max per tetrahedron: thresholds not analysed here")
+    else:
+        rep.bad(rule, key, f.where, "no exit in front of compute_contact_polygon tests both tetrahedra against the contact plane (neither check_tetrahedra_intersect_contact_plane "
+                                    "nor a min / max pair per tetrahedron): half-plane intersection then runs for tetrahedra that do not straddle the plane")
+
+
 ALIASING_WRAPPERS = ("np.asarray", "np.ascontiguousarray", "np.asanyarray", "np.atleast_2d", "np.squeeze", "np.reshape")
 
 
